@@ -575,7 +575,7 @@ class SymbolValue(Value):
             return AddressValue(symbol.int)
 
         if symbol.is_numeric():
-            return NumericValue(symbol.int)
+            return NumericValue(-symbol.int if symbol.is_negative() else symbol.int)
 
     def is_8_bit(self):
         return False
@@ -658,17 +658,13 @@ class ExpressionValue(Value):
             mode = ExplicitAddressingMode.EXTENDED
 
         if self.right.is_numeric() and self.left.is_numeric():
-            left = self.left.int
-            right = self.right.int
-
-            if self.operation == "+":
-                self.value = NumericValue("{}".format(left + right), mode=mode)
-            if self.operation == "-":
-                self.value = NumericValue("{}".format(left - right), mode=mode)
-            if self.operation == "*":
-                self.value = NumericValue("{}".format(int(left * right)), mode=mode)
-            if self.operation == "/":
-                self.value = NumericValue("{}".format(int(left / right)), mode=mode)
+            result = self.calculate(
+                -self.left.int if self.left.is_negative() else self.left.int,
+                -self.right.int if self.right.is_negative() else self.right.int,
+            )
+            if not 0 <= result <= 255:
+                mode = ExplicitAddressingMode.EXTENDED
+            self.value = NumericValue("{}".format(result), mode=mode)
             return self.value
 
         if self.left.is_address() or self.right.is_address():
@@ -684,18 +680,34 @@ class ExpressionValue(Value):
         constant = self.left.int if self.left.is_numeric() else self.right.int
         return -constant if self.operation == "-" else constant
 
-    def calculate_address_offset(self, statements):
-        address_index = self.left.int if self.left.is_address() else self.right.int
-        additional_value = self.left.int if self.left.is_numeric() else self.right.int
-        address = statements[address_index].code_pkg.address.int
+    def calculate(self, left, right):
+        """
+        Applies the operation of the expression to the two integers specified.
+        Division truncates, and division by zero raises a ValueError.
+        """
         if self.operation == "+":
-            return NumericValue(address + additional_value, size_hint=4, mode=ExplicitAddressingMode.EXTENDED)
-        elif self.operation == "-":
-            return NumericValue(address - additional_value, size_hint=4, mode=ExplicitAddressingMode.EXTENDED)
-        elif self.operation == "*":
-            return NumericValue(address * additional_value, size_hint=4, mode=ExplicitAddressingMode.EXTENDED)
-        else:
-            return NumericValue(int(address / additional_value), size_hint=4, mode=ExplicitAddressingMode.EXTENDED)
+            return left + right
+        if self.operation == "-":
+            return left - right
+        if self.operation == "*":
+            return left * right
+        if right == 0:
+            raise ValueError("[{}] division by zero".format(self.original_value))
+        return int(left / right)
+
+    def calculate_address_offset(self, statements):
+        """
+        Calculates the value of an expression that refers to one or more labels, once the
+        addresses of all of the statements are known. The result is a 16-bit quantity.
+        """
+        terms = []
+        for term in [self.left, self.right]:
+            if term.is_address():
+                terms.append(statements[term.int].code_pkg.address.int)
+            else:
+                terms.append(-term.int if term.is_negative() else term.int)
+        result = self.calculate(terms[0], terms[1]) & 0xFFFF
+        return NumericValue(result, size_hint=4, mode=ExplicitAddressingMode.EXTENDED)
 
     def is_8_bit(self):
         return False
